@@ -55,12 +55,16 @@ pub fn run(_env: &Env, run: &Run) -> (Stats, Coverage) {
         v
     };
     st.merge(run_family(&fam, |s, st| visit(s, st)));
+    st.merge(cpsweep_sequential(|c, st| {
+        visit(&from_cps(&[c as u32]), st);
+        visit(&from_cps(&[0x41, c as u32]), st);
+    }));
     let with_mapping = (0..0x110000u32).filter_map(char::from_u32).filter(|c| !c.to_lowercase().eq(std::iter::once(*c))).count();
     let not_upper = (0..0x110000u32).filter_map(char::from_u32).filter(|c| !c.to_lowercase().eq(std::iter::once(*c)) && !c.is_uppercase()).count();
     st.sample(json!({"input": ["U+01C5"], "expected": "U+01C6 (titlecase letter, no uppercase letter before it)"}));
     st.sample(json!({"input": ["a", "U+0130", "U+03A3"], "expected": "a i U+0307 U+03C3 (full, unconditional mapping)"}));
     let cov = Coverage {
-        rule: format!("every string of length <= {} over 16 symbols (upper, lower, titlecase, Other_Uppercase, multi-character mapping, 1-4 byte, uncased) + pumped runs and ASCII block strings + every scalar value in 10 templates and next to each of its bit-16..20 aliases, through case_mapping_rule of UsernameCaseMapped and Nickname; oracle = concatenation of char::to_lowercase of each character (hence position independent), idempotence on the output; non-trivial = a mapped character that is not at index 0, or two mapped characters", n),
+        rule: format!("every string of length <= {} over 16 symbols (upper, lower, titlecase, Other_Uppercase, multi-character mapping, 1-4 byte, uncased) + pumped runs and ASCII block strings + every scalar value in 10 templates and next to each of its 16 other-plane aliases, through case_mapping_rule of UsernameCaseMapped and Nickname; oracle = concatenation of char::to_lowercase of each character (hence position independent), idempotence on the output; non-trivial = a mapped character that is not at index 0, or two mapped characters", n),
         alphabet: json!(sigma.iter().map(|c| format!("U+{:04X}", *c as u32)).collect::<Vec<_>>()),
         bound_completed: format!("length <= {} ({} strings) x 2 profiles; sweep 1,112,064 x 10 templates x 2", n, tree_size(sigma.len(), n)),
         exhaustive: false,
